@@ -57,6 +57,8 @@ class Run(object):
         self.raised_ok = 0
         self.pairs = set()       # (op, s, e) partial sweep coverage
         self.state_keys = set()
+        self.single = False
+        self.tolx = 1.0
 
     # ------------------------------------------------------------------ helpers
     def _fail(self, prop, op, clause, detail, rec):
@@ -113,7 +115,7 @@ class Run(object):
         a non-orthonormalised side wiped out its value).  A *relative* threshold then compares rounding noise with
         rounding noise (s/s[0] is 0/0 in the limit): the documentation does not define the outcome (on the real code
         rank-0 bonds and an IndexError can result), so threshold-dependent calls are not issued on such an object."""
-        return not (self.snap.norm > 1e-12 * self.snap.scale)
+        return not (self.snap.norm > 1e-12 * self.tolx * self.snap.scale)
 
     def _is_vector(self):
         return all(c == 1 for c in self.t.col_dims)
@@ -127,10 +129,18 @@ class Run(object):
         self.log.add("op", self.step_no, op, rec.get("args"), rec.get("faults"))
         if op == "new":
             self.t = gen.build_tt(self.ttm, rec["spec"])
+            # single-precision cores: "up to rounding" means float32 rounding; only the C03 clauses and the rank cap /
+            # quasi-optimality of C04 are evaluated then (tolerances x 2e5), everything threshold- or svd/pinv-related
+            # is skipped
+            self.single = bool(rec["spec"].get("single"))
+            self.tolx = 2.0e5 if self.single else 1.0
             self._resnap()
             return "ok"
         if self.t is None:
             self.log.add("skip", "no object")
+            return "skip"
+        if self.single and (op in ("svd", "pinv", "truncated_svd") or rec.get("args", {}).get("threshold")):
+            self.log.add("skip", "single precision")
             return "skip"
         fn = getattr(self, "op_" + op)
         res = fn(rec)
@@ -253,11 +263,11 @@ class Run(object):
         for side, i in iso:
             c = res.cores[i]
             defect = M.left_gram_defect(c) if side == "L" else M.right_gram_defect(c)
-            if not (defect <= TOL_GRAM):
+            if not (defect <= TOL_GRAM * self.tolx):
                 self._fail("C03", op, "isometry", {"core": i, "side": side, "defect": defect, "range": [s, e]}, rec)
         if not truncating:
             # -- value preserved
-            bad, err = before.differs(after.dense, TOL_VALUE)
+            bad, err = before.differs(after.dense, TOL_VALUE * self.tolx, 1e-12 * self.tolx)
             if bad:
                 self._fail("C03", op, "value", {"error": err, "norm": before.norm, "scale": before.scale, "range": [s, e],
                                                 "ranks_before": ranks_before, "ranks_after": ranks_after}, rec)
@@ -287,7 +297,7 @@ class Run(object):
                 if r != np.inf and r < len(sv):
                     bound2 += float(np.sum(sv[int(r):] ** 2))
             err = float(env.REAL.np_norm((after.dense - before.dense).ravel())) if after.dense.shape == before.dense.shape else INF
-            lim = (1 + 1e-8) * math.sqrt(bound2) + 1e-11 * before.norm + before.floor()
+            lim = (1 + 1e-8 * self.tolx) * math.sqrt(bound2) + 1e-11 * self.tolx * before.norm + before.floor(1e-12 * self.tolx)
             if not (err <= lim):
                 self._fail("C04", op, "quasi-optimal", {"error": err, "bound": math.sqrt(bound2), "caps": [None if c == np.inf else c for c in caps],
                                                          "ranks_after": ranks_after}, rec)
@@ -316,7 +326,7 @@ class Run(object):
                 return "raised"
             self._fail("C03", "norm", "raised", {"exception": repr(exc)[:300]}, rec)
         val = float(np.real(out))
-        if not (abs(val - before.norm) <= 1e-9 * before.norm + before.floor()):
+        if not (abs(val - before.norm) <= 1e-9 * self.tolx * before.norm + before.floor(1e-12 * self.tolx)):
             self._fail("C03", "norm", "value", {"norm": val, "model": before.norm}, rec)
         now = M.Snapshot(t)
         if now.meta != before.meta or before.differs(now.dense, TOL_SAME)[0]:
@@ -363,7 +373,7 @@ class Run(object):
             self._fail("C04", op, "dims-changed", {"before": before.meta, "after": after.meta}, rec)
         ranks_after = list(after.meta[3])
         if thr == 0 and mr is None:
-            bad, err = before.differs(after.dense, TOL_VALUE)
+            bad, err = before.differs(after.dense, TOL_VALUE * self.tolx, 1e-12 * self.tolx)
             if bad:
                 self._fail("C04", op, "exact", {"error": err, "norm": before.norm, "scale": before.scale}, rec)
         else:
@@ -430,11 +440,12 @@ class Run(object):
             self._fail("C04", "truncated_svd", "quasi-optimal", {"error": err, "best": best, "kept": r}, rec)
         if thr != 0 and len(sv):
             cut = thr * sv[0] if rel else thr
+            noise = 1e-11 * sv[0]   # singular values below this are rounding noise: on which side of the cut they fall is not defined
             # nothing kept below the cut, nothing dropped above it (guard band for ties)
-            if r and float(s[-1]) < cut * (1 - 1e-6):
+            if r and float(s[-1]) > noise and float(s[-1]) < cut * (1 - 1e-6):
                 self._fail("C04", "truncated_svd", "kept-below-threshold", {"cut": cut, "s": list(map(float, s))}, rec)
             cap = mr if mr is not None else len(sv)
-            if r < min(cap, len(sv)) and float(sv[r]) > cut * (1 + 1e-6):
+            if r < min(cap, len(sv)) and float(sv[r]) > noise and float(sv[r]) > cut * (1 + 1e-6):
                 self._fail("C04", "truncated_svd", "dropped-above-threshold", {"cut": cut, "next": float(sv[r]), "kept": r}, rec)
         return "ok"
 
